@@ -263,19 +263,29 @@ class _mark_ignore_name(ast.NodeTransformer):
 
 
 class _rewrite_captured_vars(ast.NodeTransformer):
-    def __init__(self, cv: inspect.ClosureVars):
+    def __init__(self, cv: inspect.ClosureVars, inlining: Tuple[Callable, ...] = ()):
         # Enclosing function scopes hide module globals of the same name.
         self._lookup_dict: Dict[str, Any] = dict(cv.globals)
         self._lookup_dict.update(cv.nonlocals)
         self._ignore_stack = []
+        # The functions whose bodies are being inlined around what we are looking at
+        self._inlining = inlining
 
     def visit_Name(self, node: ast.Name) -> Any:
         if self.is_arg(node.id):
             return node
 
         def safe_parse_wrapper(x: Callable) -> Optional[ast.Lambda]:
+            if any(x is f for f in self._inlining):
+                # A function that (indirectly) calls itself is left as a call by name
+                return None
             try:
-                return _parse_source_for_lambda(x, None)
+                helper = _parse_source_for_lambda(x, None)
+                if helper is None:
+                    return None
+                # The free variables of the function are those of *its* closure and module.
+                captured = _rewrite_captured_vars(global_getclosurevars(x), self._inlining + (x,))
+                return captured.visit(helper)
             except Exception:
                 return None
 
